@@ -161,8 +161,10 @@ func summariseWrappers(p *core.Prog) []*wrapperSummary {
 			f := core.CalleeObj(cl)
 			// a helper method of the same wrapper that appends exactly once on every path to its return (the
 			// type switch over the underlying builder factored out of Append / AppendNonZero) is one append
-			if h := cl.Common().StaticCallee(); h != nil && h != fn && h.Signature.Recv() != nil && fn.Signature.Recv() != nil && len(h.Blocks) > 0 &&
-				types.Identical(h.Signature.Recv().Type(), fn.Signature.Recv().Type()) {
+			// … or a (generic) package function of the builder package handed the underlying builder
+			if h := cl.Common().StaticCallee(); h != nil && h != fn && fn.Signature.Recv() != nil && len(h.Blocks) > 0 &&
+				(h.Signature.Recv() != nil && types.Identical(h.Signature.Recv().Type(), fn.Signature.Recv().Type()) ||
+					h.Signature.Recv() == nil && core.FnPkgPath(h) == pkgBuilder) {
 				hasAppend := false
 				core.EachInstr(h, func(j ssa.Instruction) {
 					if _, ok := direct(j); ok {
